@@ -19,6 +19,15 @@ for d in sorted(glob.glob(V + "/seeded/C*")):
             det.append({"check": prop, "harness": None, "result": "passed (missed)" if ok else ("infrastructure error: " + "; ".join(infra)[:200])})
     m["detection"] = det
     json.dump(m, open(d + "/meta.json", "w"), indent=1)
+    OUTSIDE = {
+        "C17b": "**missed** (not run): the changed code is the `default` arm of `try_insert_in`'s crossbeam `select!`, which Kani cannot compile (ICE); the async twin of that arm needs a suspended send (event-listener), which does not finish",
+        "C19b": "**missed** (not run): the changed code is the async processor's task loop (`CacheProcessor::spawn`: timers, `select!` over four futures), which no harness can execute",
+    }
+    if sid in OUTSIDE and not det:
+        m["detection"] = [{"check": m.get("breaks_property"), "harness": None, "result": OUTSIDE[sid]}]
+        json.dump(m, open(d + "/meta.json", "w"), indent=1)
+        rows.append("| %s | %s | %s | %s |" % (sid, m.get("breaks_property", ""), m.get("change", "").replace("|", "/"), OUTSIDE[sid]))
+        continue
     caught = [x for x in det if x.get("harness")]
     if caught:
         res = "; ".join(sorted(set("`%s` (%s)" % (x["harness"], x["check"]) for x in caught)))
